@@ -37,16 +37,16 @@ type RuleStat struct {
 }
 
 type Report struct {
-	Prop    string
-	Tier    string
-	Seed    int64
-	Obls    []*Obl
-	Rules   []*RuleStat
-	cur     *RuleStat
-	Funcs   map[string]bool // functions analysed
-	Notes   []string
-	Extra   map[string]interface{}
-	start   time.Time
+	Prop     string
+	Tier     string
+	Seed     int64
+	Obls     []*Obl
+	Rules    []*RuleStat
+	cur      *RuleStat
+	Funcs    map[string]bool // functions analysed
+	Notes    []string
+	Extra    map[string]interface{}
+	start    time.Time
 	verifDir string
 	outDir   string
 }
